@@ -85,7 +85,30 @@ def generate(report):
     for hdr, vty, nm in ((r"impl<const N: usize> TryFrom<u64> for U32s<N>\s*\{", "u64", "tryfrom_u64_rejects"),
                          (r"impl<const N: usize> TryFrom<u128> for U32s<N>\s*\{", "u128", "tryfrom_u128_rejects")):
         try:
-            out += guard_of(src, hdr, vty, nm)
+            try:
+                out += guard_of(src, hdr, vty, nm)
+            except Untranslatable as first:
+                # another arrangement of the same decision (a `fits` flag, an early return, an if chain): every
+                # `Err(Self::Error::InsufficientSize)` becomes `true` ("rejects"), the one conversion
+                # `Ok(U32s::from(BigUint::from(value)))` becomes `false`, and the body is translated as a function
+                # (N: usize, value) -> bool by the ordinary translator; anything it cannot express is reported as before
+                impl = find_in(src, hdr)
+                psrc, ret, body = find_fn(impl, "try_from")
+                if re.sub(r"\s+", "", psrc) != "value:" + vty:
+                    raise first
+                b2 = re.sub(r"//[^\n]*", "", body)
+                n_err = len(re.findall(r"Err\(\s*Self::Error::InsufficientSize\s*\)", b2))
+                n_ok = len(re.findall(r"Ok\(\s*U32s::from\(\s*BigUint::from\(\s*value\s*\)\s*\)\s*\)", b2))
+                if n_err < 1 or n_ok != 1 or "Err(" in re.sub(r"Err\(\s*Self::Error::InsufficientSize\s*\)", "", b2) \
+                        or "Ok(" in re.sub(r"Ok\(\s*U32s::from\(\s*BigUint::from\(\s*value\s*\)\s*\)\s*\)", "", b2):
+                    raise first
+                b2 = re.sub(r"Err\(\s*Self::Error::InsufficientSize\s*\)", "true", b2)
+                b2 = re.sub(r"Ok\(\s*U32s::from\(\s*BigUint::from\(\s*value\s*\)\s*\)\s*\)", "false", b2)
+                synth = "fn %s(N: usize, value: %s) -> bool %s\n" % (nm, vty, b2)
+                try:
+                    out += translate_fn(Ctx(), synth, nm, nm, None, 0, [])
+                except Untranslatable as second:
+                    raise Untranslatable("%s; generic form: %s" % (first, second))
         except Untranslatable as ex:
             report.append(("U32sGen", nm, str(ex)))
     write_if_changed(os.path.join(OUT, "U32sGen.v"), out)
